@@ -35,7 +35,7 @@ EXTENDS Integers, Sequences, FiniteSets, Json, TLC
 CONSTANTS TxFields,     \* protobuf field names of types.Transaction
           SigFields,    \* protobuf field names of types.Signature
           MsgFields,    \* Transaction fields of message kind (only mutation "zero" applies)
-          Muts,         \* byte/number mutations, e.g. {"flip","zero","ext1","ext32","trunc"}
+          Muts,         \* byte/number mutations, e.g. {"flip","flip0","zero","ext1","ext32","trunc"}
           SigTypes,     \* registered crypto driver names
           OffTypes,     \* types disabled by the configuration at every height
           GatedTypes,   \* types with a non-zero enable height in the configuration
